@@ -78,6 +78,21 @@ CHECKS = {
         "standard library.",
         "DESIGN.md section 4, C07",
     ),
+    "C08": (
+        "exploration",
+        "model-based testing of generated operation histories (Hypothesis) "
+        "against a (batch count, finished set) model with an invariant after "
+        "every step",
+        "Generated histories of sow/re-sow/grow/grow_missing/failing "
+        "function/delete/corrupt+check_bad/reload are run on a real crop; "
+        "after every operation all five progress queries (asked in a rotating "
+        "order), the results directory and every result's content are "
+        "compared with the model, and grow calls are checked for propagating "
+        "failures and for calling the function on exactly the right settings.",
+        "File corruption is always followed by check_bad within the same "
+        "step.",
+        "DESIGN.md section 4, C08",
+    ),
     "C09": (
         "exploration",
         "exhaustive enumeration of finished-batch subsets with a model "
